@@ -93,6 +93,18 @@ def extra_nodes(rnd, D):
               f"{cls.__name__}(events={ne}, stations={ns}, infer_velocity={infer}, missing={sum(math.isnan(o) for r in obs for o in r)})")
     nd.src = (split, stations, obs_t, sds_t, three, infer)
     nd.tol = 1e-9
+
+    def fix_point(x):
+        # a hypocentre exactly on a station is a kink of the misfit (distance 0): not a point where "the derivative" exists;
+        # C17 looks at those points separately
+        x = list(x)
+        for e in range(ne):
+            b = x[e * per:(e + 1) * per]
+            pos3 = (b[0], b[1], b[2]) if three else (b[0], 0.0, b[1])
+            if any(pos3 == (a, bb, c) for a, bb, c in zip(rx, ry, rz)):
+                x[e * per + per - 2] += 0.0625
+        return x
+    nd.fix_point = fix_point
     return nd
 
 
@@ -138,6 +150,8 @@ def spec_checks(node, x, rnd):
         obj.misfit(work)
         obj.gradient(work)
         x2 = distgen.interior_point(rnd, node)
+        if hasattr(node, "fix_point"):
+            x2 = node.fix_point(x2)
         work[:, 0] = x2
         g_inplace = obj.gradient(work)
         g_fresh = pristine.gradient(numpy.array(x2, dtype=float).reshape(-1, 1))
@@ -177,6 +191,8 @@ def run(tier, seed):
             dist["nested" if depth else "leaf"] += 1
             dist["depth>=2"] += int(depth >= 2)
         x = distgen.interior_point(rnd, node)
+        if hasattr(node, "fix_point"):
+            x = node.fix_point(x)
         probs, mis, grad = spec_checks(node, x, rnd)
         if hasattr(node.obj, "misfit"):
             probs = list(probs) + distgen.inplace_consistency(rnd, node.obj, numpy.array(x, dtype=float).reshape(-1, 1), node.desc)
